@@ -126,6 +126,14 @@ impl<C: Suite> Model for M01<C> {
             }
             return vec![];
         }
+        // messages selected by a byte pattern of their SIGNATURE under the first derived key (position 3): that signature
+        // (and nothing else) travels through every codec
+        if s.k == 3 && s.m < self.msgs.names.len() && self.msgs.names[s.m].contains("content=pattern:") {
+            if s.pk_c == Codec::None && s.sig_c == Codec::None && s.sk_c == SkCodec::Plain(Codec::None) {
+                return [Codec::Bytes, Codec::Bare, Codec::Json, Codec::JsonReader, Codec::JsonValue].into_iter().map(Act::Sig).collect();
+            }
+            return vec![];
+        }
         if !self.tk.contains(&s.k) || !self.tm.contains(&s.m) {
             return vec![];
         }
